@@ -10,6 +10,7 @@ import json
 import c05_common as cc
 import c05_gen as g5
 import c06_gen as g6
+import c06_kset_probe
 import c06_probe
 from common import Check
 
@@ -19,7 +20,8 @@ ASSUMPTIONS = [
     "exhaustive scope: containers of <= 3 elements over {0,1,2} (List[int], Set[int]; Dict[str,int] with keys '', 'a7', 'a8'; List[str] over those strings) x with_/update_/transform_/without_<item> x _index in [-len-1, len+1] x _insert x _by_index in {default, True, False} x keys/values present and absent, container present or missing (quick tier: a seeded sample of the enumerated calls, thorough tier: all of them)",
     "keyed spec elements: List[K1]/Dict[str,K1] with K1 keyed, attribute with and without an item preparer (identity), container missing / empty / one element: bare keys promoted by with_/update_<item> with and without keywords, _index, _insert (48 histories, both tiers)",
     "beyond the exhaustive scope: random containers of up to 8 elements edited by up to 8 consecutive calls (copy and in place), List/Dict of (keyed) spec classes with keywords, bare keys and dict-as-arguments from the shared history grammar (conforming arguments)",
-    "KeyedList/KeyedSet-typed attributes are outside the Coq instance model (their container semantics are C13/C14); KeyedList attributes are covered by an implementation-level probe (harness/c06_probe.py): chains of element-helper calls addressed by index and by key, compared in Python with a plain list of records, plus agreement of the by-key and by-index views",
+    "KeyedList/KeyedSet-typed attributes are outside the Coq instance model (their container semantics are C13/C14); KeyedList attributes are covered by an implementation-level probe (harness/c06_probe.py): chains of element-helper calls addressed by index, by key and by element object (equal: found by value; only key-equal: not found), compared in Python with a plain list of records, plus agreement of the by-key and by-index views",
+    "KeyedSet attributes of keyed spec elements: implementation-level probe (harness/c06_kset_probe.py): aimed one-call chains and random chains of with_/update_/transform_/without_<item> addressed by bare key, by an equal element object and by a key-equal element object whose other attributes differ, copy and in place, with and without an item preparer, compared in Python with a plain dict of elements by key (order not compared); a transform must be handed the stored element",
     "interpretation: transform_<item>(f) stores f(old) (not run through the item preparer); update_<item>(target) without a new value leaves the element; with_<item>(_index=i) on an absent index is an IndexError unless _insert; a bool _index counts as an integer",
 ]
 
@@ -28,6 +30,8 @@ def main(tier, replay=None):
     if replay:
         if json.load(open(replay)).get("kind") == "keyedlist-probe":
             return c06_probe.replay(replay)
+        if json.load(open(replay)).get("kind") == "keyedset-probe":
+            return c06_kset_probe.replay(replay)
         return cc.replay(PID, replay, SEL)
     chk = Check(PID, tier)
     chk.proofs(extra_targets=["Corr/InstCorr.vo", "Corr/SpecCorr.vo"])
@@ -69,4 +73,5 @@ def main(tier, replay=None):
         "exhaustive": tier != "quick",
     }
     c06_probe.probe(chk, rng, 300 if quick else 3000, 5 if quick else 7, extra)
+    c06_kset_probe.probe(chk, rng, 300 if quick else 3000, 6 if quick else 8, extra)
     return chk.finish(trusted_base=cc.TRUSTED, assumptions=ASSUMPTIONS, extra=extra)
